@@ -120,6 +120,7 @@ type Gen struct {
 	cmds      []string
 	obligs    []*Oblig
 	heapSorts map[string]string
+	heapKeySort map[string]string
 	declared  map[string]bool
 	nfresh    int
 	fieldIDs  map[string]int
@@ -162,7 +163,7 @@ func NewGen(p *Prog) *Gen {
 
 func newGen0(p *Prog) *Gen {
 	return &Gen{P: p, sorts: p.sorts, heapSorts: map[string]string{}, declared: map[string]bool{}, fieldIDs: map[string]int{},
-		strLits: map[string]string{}, typeTags: map[string]int{}, trusted: map[string]bool{}, ghost: map[string]bool{}, funcIDs: map[string]int{}, uf: map[string]bool{}, escaped: map[string]bool{}, heapElem: map[string]types.Type{}, heapDepth: map[string]int{}}
+		strLits: map[string]string{}, typeTags: map[string]int{}, trusted: map[string]bool{}, ghost: map[string]bool{}, funcIDs: map[string]int{}, uf: map[string]bool{}, escaped: map[string]bool{}, heapElem: map[string]types.Type{}, heapDepth: map[string]int{}, heapKeySort: map[string]string{}}
 }
 
 func (g *Gen) emit(cmd string) {
@@ -368,6 +369,9 @@ func (g *Gen) heapWF(st *State, name, sym string, ep int) {
 	if g.heapDepth[name] == 2 {
 		sel = app("select", app("select", sym, "r!"), "i!")
 		binders = "((r! Int) (i! Int))"
+		if ks, ok := g.heapKeySort[name]; ok {
+			binders = "((r! Int) (i! " + ks + "))"
+		}
 	} else {
 		sel = app("select", sym, "r!")
 		binders = "((r! Int))"
@@ -453,8 +457,9 @@ func (g *Gen) mapHeaps(m *types.Map) (dom, val, ln string) {
 	ks := g.sorts.SortOf(m.Key())
 	dom = g.regHeap("MapDom:"+k, arrSort(SInt, arrSort(ks, SBool)))
 	val = g.regHeap("MapVal:"+k, arrSort(SInt, arrSort(ks, g.sorts.SortOf(m.Elem()))))
-	if ks == SInt {
-		g.heapElem[val], g.heapDepth[val] = m.Elem(), 2
+	g.heapElem[val], g.heapDepth[val] = m.Elem(), 2
+	if ks != SInt {
+		g.heapKeySort[val] = ks // references stored under non-integer keys (map[common.Hash]*T) are old too
 	}
 	ln = g.regHeap("MapLen:"+k, arrSort(SInt, SInt))
 	return
